@@ -1034,6 +1034,12 @@ class Sym:
             if ck == 'LValueToRValue':
                 out.append((s, self.rvalue(v, s)))
                 continue
+            if ck == 'IntegralCast' and isinstance(v, tuple) and v[:1] != ('k',) and 'cv' not in e \
+                    and not int_preserving(self.F, (e['e'] or {}).get('t'), e.get('t')):
+                # a conversion to an integer type that cannot hold every value of the source type changes large values
+                # (modulo 2^N): the result is not the operand
+                out.append((s, ('narrow', e.get('t'), v)))
+                continue
             if ck in ('DerivedToBase', 'UncheckedDerivedToBase', 'BaseToDerived', 'NoOp', 'LValueToRValue',
                       'ArrayToPointerDecay', 'IntegralCast', 'NullToPointer', 'BitCast', 'Dependent',
                       'ToVoid', 'IntegralToBoolean', 'PointerToBoolean', 'ConstructorConversion',
@@ -1931,6 +1937,33 @@ class Sym:
             st.contents.setdefault(recv, []).append(o)
             return pre + [(st, ('addr', o))]
         raise Unsupported(f'make_node initialiser form {init.get("k")}')
+
+
+_INT_TYPES = {'bool': (1, False), 'char': (8, True), 'signed char': (8, True), 'unsigned char': (8, False), 'char8_t': (8, False),
+              'short': (16, True), 'unsigned short': (16, False), 'char16_t': (16, False), 'int': (32, True), 'unsigned int': (32, False),
+              'char32_t': (32, False), 'wchar_t': (32, True), 'long': (64, True), 'unsigned long': (64, False),
+              'long long': (64, True), 'unsigned long long': (64, False)}
+
+
+def int_shape(F, t):
+    """(bits, signed) of an integer or enumeration type, None when unknown"""
+    if not t:
+        return None
+    t = t.replace('const ', '').replace('volatile ', '').strip()
+    if t in F.enums:
+        t = (F.enums[t].get('underlying') or '').strip()
+    return _INT_TYPES.get(t)
+
+
+def int_preserving(F, src, dst):
+    """does the conversion from integer type `src` to `dst` keep every bit?  Unknown types: assumed yes (not a finding)."""
+    a, b = int_shape(F, src), int_shape(F, dst)
+    if a is None or b is None:
+        return True
+    (ba, sa), (bb, sb) = a, b
+    # a change of signedness at the same width re-reads the same bits (sizes and differences are converted both ways all over
+    # the library and are never negative where it matters): only a loss of bits is reported
+    return bb >= ba
 
 
 def _nested_labels(stmt):
